@@ -344,15 +344,16 @@ def neSky (fa fb : Fields) : Except Exc Bool :=
     let cy ← bcastAll exact (arrOf (fa.get? "lat")) (arrOf (fb.get? "lat"))
     pure (!(cx && cy))
 
-/-- `getattr(value, 'shape', None)` as `Region.__eq__` reads it: a `SkyCoord` has shape `()` or
-`(n,)`, a scalar `Quantity` `()`, an array `(n,)`; `PixCoord`, regions, dicts, Python scalars and
-functions have no `shape` attribute. -/
+/-- `getattr(value, 'shape', ())` as `Region.__eq__` reads it: a `SkyCoord` has shape `()` or
+`(n,)`, a scalar `Quantity` `()`, an array `(n,)`; everything without a `shape` attribute
+(`PixCoord`, regions, dicts, Python numbers, strings, functions) counts as `()`, exactly like a
+numpy scalar — so the carrier type of a number (Python `int` / `float`, `numpy.int64`, `float32`, …)
+does not matter. -/
 def shapeOf : V → Option (List Nat)
   | .node _ .skycoord fs =>
     if atomOf (fs.get? "scalar") = .bool true then some [] else some [(arrOf (fs.get? "lon")).length]
-  | .node _ .quantity _ => some []
   | .node _ .array fs => some [fs.length]
-  | _ => none
+  | _ => some []
 
 /-! #### the class table (`_params`, base classes, constructor behaviour) -/
 
